@@ -1439,9 +1439,12 @@ class Cache:
         if prefix is None:
             min_key = 0
             max_key = 999999999999999
+            same_queue = ''
         else:
             min_key = prefix + '-000000000000000'
             max_key = prefix + '-999999999999999'
+            # Keys of a longer prefix like "prefix-5" sort inside the range.
+            same_queue = ' AND length(key) = %d' % len(max_key)
 
         now = time.time()
         raw = True
@@ -1451,9 +1454,9 @@ class Cache:
         order = {'back': 'DESC', 'front': 'ASC'}
         select = (
             'SELECT key FROM Cache'
-            ' WHERE ? < key AND key < ? AND raw = ?'
+            ' WHERE ? < key AND key < ? AND raw = ?%s'
             ' ORDER BY key %s LIMIT 1'
-        ) % order[side]
+        ) % (same_queue, order[side])
 
         with self._transact(retry, filename) as (sql, cleanup):
             rows = sql(select, (min_key, max_key, raw)).fetchall()
@@ -1549,16 +1552,19 @@ class Cache:
         if prefix is None:
             min_key = 0
             max_key = 999999999999999
+            same_queue = ''
         else:
             min_key = prefix + '-000000000000000'
             max_key = prefix + '-999999999999999'
+            # Keys of a longer prefix like "prefix-5" sort inside the range.
+            same_queue = ' AND length(key) = %d' % len(max_key)
 
         order = {'front': 'ASC', 'back': 'DESC'}
         select = (
             'SELECT rowid, key, expire_time, tag, mode, filename, value'
-            ' FROM Cache WHERE ? < key AND key < ? AND raw = 1'
+            ' FROM Cache WHERE ? < key AND key < ? AND raw = 1%s'
             ' ORDER BY key %s LIMIT 1'
-        ) % order[side]
+        ) % (same_queue, order[side])
 
         if expire_time and tag:
             default = default, None, None
@@ -1664,16 +1670,19 @@ class Cache:
         if prefix is None:
             min_key = 0
             max_key = 999999999999999
+            same_queue = ''
         else:
             min_key = prefix + '-000000000000000'
             max_key = prefix + '-999999999999999'
+            # Keys of a longer prefix like "prefix-5" sort inside the range.
+            same_queue = ' AND length(key) = %d' % len(max_key)
 
         order = {'front': 'ASC', 'back': 'DESC'}
         select = (
             'SELECT rowid, key, expire_time, tag, mode, filename, value'
-            ' FROM Cache WHERE ? < key AND key < ? AND raw = 1'
+            ' FROM Cache WHERE ? < key AND key < ? AND raw = 1%s'
             ' ORDER BY key %s LIMIT 1'
-        ) % order[side]
+        ) % (same_queue, order[side])
 
         if expire_time and tag:
             default = default, None, None
